@@ -386,6 +386,7 @@ Definition fresh (m : modl) : Prop := m_impl m = false /\ m_tc m = false /\ m_co
 
 Record PI (s t : state) : Prop := {
   pi_expl : explicit t = explicit s;
+  pi_xopts : xopts t = xopts s;
   pi_len : (length (mods s) <= length (mods t))%nat;
   pi_olds : map clr_flags (olds_of s t) = map clr_flags (mods s);
   pi_creating : creating t = keys (news_of s t);
@@ -398,6 +399,7 @@ Record PI (s t : state) : Prop := {
 Lemma PI_refl s : wf_state s -> evs s = [] -> PI s s.
 Proof.
   intros W He. constructor.
+  - reflexivity.
   - reflexivity.
   - lia.
   - unfold olds_of. rewrite firstn_all. reflexivity.
@@ -443,6 +445,7 @@ Lemma PI_upd s t k g :
 Proof.
   intros P Hk Hf Hc. constructor; cbn [upd_s with_mods mods explicit creating implementing evs].
   - apply (pi_expl _ _ P).
+  - apply (pi_xopts _ _ P).
   - rewrite upd_length. apply (pi_len _ _ P).
   - rewrite olds_upd_s. destruct Hc as [Hc|Hc].
     + rewrite map_upd_inv by exact Hc. apply (pi_olds _ _ P).
@@ -503,6 +506,7 @@ Proof.
   intros P Hn. pose proof (pi_len _ _ P) as Hl.
   constructor; cbn [add_ev with_mods with_creating mods explicit creating implementing evs].
   - apply (pi_expl _ _ P).
+  - apply (pi_xopts _ _ P).
   - rewrite app_length. lia.
   - unfold olds_of. cbn [add_ev with_mods with_creating mods]. rewrite firstn_app_le by exact Hl. apply (pi_olds _ _ P).
   - unfold news_of. cbn [add_ev with_mods with_creating mods]. rewrite skipn_app_le by exact Hl. unfold keys. rewrite map_app.
@@ -725,6 +729,7 @@ Qed.
 (* only to_compile / the compiled tree / ... changed between two states: equal after the normaliser N *)
 Record same_but (N : modl -> modl) (t t' : state) : Prop := {
   sb_expl : explicit t' = explicit t;
+  sb_xopts : xopts t' = xopts t;
   sb_creating : creating t' = creating t;
   sb_implementing : implementing t' = implementing t;
   sb_featsaved : featsaved t' = featsaved t;
@@ -908,7 +913,7 @@ Qed.
 Lemma same_but_weaken (N N' : modl -> modl) t t' :
   (forall m, N' m = N' (N m)) -> same_but N t t' -> same_but N' t t'.
 Proof.
-  intros H [E1 E2 E3 E4 E5]. constructor; [exact E1|exact E2|exact E3|exact E4|].
+  intros H [E1 Ex E2 E3 E4 E5]. constructor; [exact E1|exact Ex|exact E2|exact E3|exact E4|].
   assert (E : forall l, map N' l = map N' (map N l)).
   { intros l. rewrite map_map. apply map_ext. exact H. }
   rewrite E, E5, <- E. reflexivity.
@@ -1017,7 +1022,7 @@ Proof.
 Qed.
 
 Lemma same_but_sym N t t' : same_but N t t' -> same_but N t' t.
-Proof. intros [E1 E2 E3 E4 E5]. constructor; congruence. Qed.
+Proof. intros [E1 Ex E2 E3 E4 E5]. constructor; congruence. Qed.
 
 (* the abstract compiled schema only reads features, imports and keys *)
 Lemma snapshot_ext l l' m m' :
@@ -1625,9 +1630,9 @@ Qed.
 Lemma mkey_parts m m' : mkey m' = mkey m -> m_name m' = m_name m /\ m_rev m' = m_rev m.
 Proof. unfold mkey. intros H. inversion H. tauto. Qed.
 
-Lemma obs_frel s s' : Forall2 frel (mods s) (mods s') -> obs s' = obs s.
+Lemma obs_frel s s' : explicit s' = explicit s -> xopts s' = xopts s -> Forall2 frel (mods s) (mods s') -> obs s' = obs s.
 Proof.
-  intros F. unfold obs.
+  intros Ee Ex F. unfold obs.
   assert (Fu : Forall2 frel (user_mods s) (user_mods s')) by (apply Forall2_skipn; exact F).
   assert (E1 : map omod_of (user_mods s') = map omod_of (user_mods s)).
   { apply Forall2_map_eq. eapply Forall2_impl; [|exact Fu]. intros a b [K I Fe C L].
@@ -1655,7 +1660,7 @@ Proof.
   assert (E4 : hash_fields s' = hash_fields s).
   { unfold hash_fields. apply Forall2_map_eq. eapply Forall2_impl; [|exact Fu]. intros x y [K' I' Fe' _ _].
     destruct (mkey_parts _ _ K') as [K1' K2']. rewrite K1', K2', I', Fe'. reflexivity. }
-  rewrite E1, E2, E3, E4. reflexivity.
+  rewrite E1, E2, E3, E4, Ee, Ex. reflexivity.
 Qed.
 
 (* ------------------------------------------------------------------------------------------------ *)
@@ -1720,6 +1725,7 @@ Qed.
 
 Record frame_eq (t t' : state) : Prop := {
   fe_expl : explicit t' = explicit t;
+  fe_xopts : xopts t' = xopts t;
   fe_creating : creating t' = creating t;
   fe_keys : keys (mods t') = keys (mods t) }.
 
@@ -1729,7 +1735,7 @@ Lemma frame_eq_trans t1 t2 t3 : frame_eq t1 t2 -> frame_eq t2 t3 -> frame_eq t1 
 Proof. intros [] []. constructor; congruence. Qed.
 Lemma same_but_frame N t t' : (forall m, mkey (N m) = mkey m) -> same_but N t t' -> frame_eq t t'.
 Proof.
-  intros HN [E1 E2 E3 E4 E5]. constructor; [exact E1|exact E2|].
+  intros HN [E1 Ex E2 E3 E4 E5]. constructor; [exact E1|exact Ex|exact E2|].
   assert (G : forall l, keys l = keys (map N l)).
   { intros l. unfold keys. rewrite map_map. apply map_ext. intros m. symmetry. apply HN. }
   rewrite G, E5, <- G. reflexivity.
@@ -2257,7 +2263,7 @@ Qed.
 
 Lemma attempt_LJ R t o : LJs t -> LJs (fst (fst (attempt R t o))).
 Proof.
-  intros J. destruct o as [d sel|name rev sel|name rev sel|]; cbn [attempt].
+  intros J. destruct o as [d sel|name rev sel|name rev sel| |fl|fl]; cbn [attempt]; try exact J.
   - pose proof (parse_in_LJ (pfuel R) R t d None J) as J1. destruct (parse_in (pfuel R) R t d None) as [t1 pr]. cbn [fst] in J1.
     assert (H : forall k, LJs (fst (fst (let '(s2, dss, ok) := implement_and_compile t1 k sel in (s2, dss, if ok then ROk else RErr))))).
     { intros k. pose proof (iac_kl t1 k sel) as E. destruct (implement_and_compile t1 k sel) as [[s2 dss] ok]. cbn [fst] in *.
@@ -2278,13 +2284,43 @@ Proof.
     apply (same_but_kl no_tc _ _ (fun x => conj eq_refl eq_refl) S1).
 Qed.
 
+Lemma with_flags_mods e x t : mods (with_flags e x t) = mods t.
+Proof. reflexivity. Qed.
+
+Lemma do_compile_LJ t : LJs t -> LJs (fst (do_compile t)).
+Proof.
+  intros J. unfold do_compile.
+  pose proof (same_but_dep_sets_create t None) as S1. destruct (dep_sets_create t None) as [s1 dss].
+  pose proof (same_but_compile_all dss s1) as S2. destruct (compile_all dss s1) as [s2 ok]. cbn [fst] in *.
+  assert (J2 : LJs s2).
+  { unfold LJs. eapply LJ_kl; [|exact J].
+    rewrite (same_but_kl no_tc_comp _ _ (fun x => conj eq_refl eq_refl) S2).
+    apply (same_but_kl no_tc _ _ (fun x => conj eq_refl eq_refl) S1). }
+  destruct ok; cbn [fst]; [exact J2|]. apply (revert_LJ s2 dss J2).
+Qed.
+
+Lemma set_options_gen_LJ b t fl : LJs t -> LJs (fst (set_options_gen b t fl)).
+Proof.
+  intros J. unfold set_options_gen. destruct (negb (x_priv (xopts t)) && of_priv fl); [|exact J].
+  match goal with |- context [do_compile ?sm] => assert (Jm : LJs sm) end.
+  { unfold LJs. eapply LJ_kl; [|exact J]. rewrite (same_but_kl no_tc _ _ (fun x => conj eq_refl eq_refl) (mark_all_same_but _ _)).
+    destruct b; reflexivity. }
+  match goal with |- context [do_compile ?sm] => pose proof (do_compile_LJ sm Jm) as J2; destruct (do_compile sm) as [s2 ok] end.
+  cbn [fst] in J2. destruct ok; exact J2.
+Qed.
+
 Lemma step_LJ R s o : LJs s -> LJs (fst (step R s o)).
 Proof.
-  intros J. unfold step. pose proof (attempt_LJ R (core s) o J) as J1.
-  destruct (attempt R (core s) o) as [[mid dss] r]. cbn [fst] in J1. unfold finish.
-  assert (Hr : LJs (erase (revert mid dss))) by (apply (revert_LJ mid dss J1)).
-  destruct r; try exact Hr; try exact J1.
-  destruct o; try destruct (explicit mid); exact J1.
+  intros J. unfold step.
+  assert (Hold : LJs (fst (finish o (attempt R (core s) o)))).
+  { pose proof (attempt_LJ R (core s) o J) as J1.
+    destruct (attempt R (core s) o) as [[mid dss] r]. cbn [fst] in J1. unfold finish.
+    assert (Hr : LJs (erase (revert mid dss))) by (apply (revert_LJ mid dss J1)).
+    destruct r; try exact Hr; try exact J1.
+    destruct o; try destruct (explicit mid); exact J1. }
+  destruct o; try exact Hold.
+  - pose proof (set_options_gen_LJ false (core s) fl J) as J1. unfold set_options.
+    destruct (set_options_gen false (core s) fl) as [s' ok]. exact J1.
 Qed.
 
 Lemma init_LJ expl : LJs (init expl).
@@ -2824,7 +2860,7 @@ Qed.
 Lemma PI_frame s t1 mid : PI s t1 -> frame_eq t1 mid ->
   NoDup (keys (mods mid)) /\ keys (olds_of s mid) = keys (mods s) /\ creating mid = keys (news_of s mid).
 Proof.
-  intros P [E1 E2 E3]. split; [rewrite E3; apply (pi_nodup _ _ P)|]. split.
+  intros P [E1 Ex E2 E3]. split; [rewrite E3; apply (pi_nodup _ _ P)|]. split.
   - unfold olds_of, keys. rewrite <- firstn_map. fold (keys (mods mid)). rewrite E3. unfold keys. rewrite firstn_map.
     apply (keys_olds s t1 P).
   - rewrite E2, (pi_creating _ _ P). unfold news_of, keys. rewrite <- !skipn_map. fold (keys (mods mid)). rewrite E3. reflexivity.
@@ -3011,6 +3047,123 @@ Proof.
     + rewrite (sb_implementing _ _ _ Sm). exact Hi2.
 Qed.
 
+(* ------------------------------------------------------------------------------------------------ *)
+(* the context options                                                                              *)
+(* ------------------------------------------------------------------------------------------------ *)
+Definition fl_eq (t t' : state) : Prop := explicit t' = explicit t /\ xopts t' = xopts t.
+
+Lemma fl_refl t : fl_eq t t.
+Proof. split; reflexivity. Qed.
+Lemma fl_trans t1 t2 t3 : fl_eq t1 t2 -> fl_eq t2 t3 -> fl_eq t1 t3.
+Proof. intros [A1 A2] [B1 B2]. split; congruence. Qed.
+Lemma same_but_fl N t t' : same_but N t t' -> fl_eq t t'.
+Proof. intros S. split; [apply (sb_expl _ _ _ S)|apply (sb_xopts _ _ _ S)]. Qed.
+Lemma frame_fl t t' : frame_eq t t' -> fl_eq t t'.
+Proof. intros F. split; [apply (fe_expl _ _ F)|apply (fe_xopts _ _ F)]. Qed.
+Lemma PI_fl s t : PI s t -> fl_eq s t.
+Proof. intros P. split; [apply (pi_expl _ _ P)|apply (pi_xopts _ _ P)]. Qed.
+
+Lemma fold_upd_fl g ds : forall t, fl_eq t (fold_left (fun s k => upd_s k g s) ds t).
+Proof.
+  induction ds as [|k ds IH]; intros t; cbn [fold_left]; [apply fl_refl|].
+  eapply fl_trans; [|apply IH]. split; reflexivity.
+Qed.
+
+Lemma fold_rm_fl ks : forall a, fl_eq (fst a) (fst (fold_left rm_step ks a)).
+Proof.
+  induction ks as [|k ks IH]; intros a; cbn [fold_left]; [apply fl_refl|].
+  eapply fl_trans; [|apply IH]. split; reflexivity.
+Qed.
+
+Lemma revert_fl t dss : fl_eq t (revert t dss).
+Proof.
+  unfold revert. pose proof (same_but_fl _ _ _ (restore_features_same_but t)) as F1.
+  set (t1 := restore_features t) in *.
+  pose proof (fold_upd_fl (fun m => set_tc false (set_comp None (set_impl false m))) (implementing t1) t1) as F2.
+  set (t2 := fold_left _ (implementing t1) t1) in *.
+  pose proof (fold_rm_fl (creating t2) (t2, dss)) as F3. cbn [fst] in F3.
+  destruct (fold_left rm_step (creating t2) (t2, dss)) as [s2 dss2]. cbn [fst] in F3.
+  assert (F : fl_eq t s2) by (eapply fl_trans; [exact F1|eapply fl_trans; [exact F2|exact F3]]).
+  assert (G : fl_eq t (fst (compile_all dss2 (mark_all dss2 s2)))).
+  { eapply fl_trans; [exact F|]. eapply fl_trans; [apply (same_but_fl _ _ _ (mark_all_same_but dss2 s2))|].
+    apply (same_but_fl _ _ _ (same_but_compile_all dss2 (mark_all dss2 s2))). }
+  destruct (implementing s2); [destruct (featsaved s2)|]; assumption.
+Qed.
+
+Lemma erase_fl t : fl_eq t (erase t).
+Proof. split; reflexivity. Qed.
+
+Lemma do_compile_fl t : fl_eq t (fst (do_compile t)).
+Proof.
+  unfold do_compile.
+  pose proof (same_but_fl _ _ _ (same_but_dep_sets_create t None)) as F1. destruct (dep_sets_create t None) as [s1 dss].
+  pose proof (same_but_fl _ _ _ (same_but_compile_all dss s1)) as F2. destruct (compile_all dss s1) as [s2 ok]. cbn [fst] in *.
+  assert (F : fl_eq t s2) by (eapply fl_trans; eassumption).
+  destruct ok; cbn [fst].
+  - eapply fl_trans; [exact F|apply erase_fl].
+  - eapply fl_trans; [exact F|]. eapply fl_trans; [apply revert_fl|apply erase_fl].
+Qed.
+
+(* ly_ctx_set_options() as coded: a failing call leaves every option as it was (the other new flags are only ORed in after
+   the recompilation succeeded, and LY_CTX_SET_PRIV_PARSED is cleared again); this holds in every state *)
+Lemma set_options_failed_keeps_flags t fl :
+  snd (set_options t fl) = false -> fl_eq t (fst (set_options t fl)).
+Proof.
+  unfold set_options, set_options_gen. destruct (negb (x_priv (xopts t)) && of_priv fl) eqn:Ec; [|discriminate].
+  apply andb_true_iff in Ec. destruct Ec as [Ep _]. apply negb_true_iff in Ep.
+  match goal with |- context [do_compile ?sm] =>
+    pose proof (do_compile_fl sm) as F2;
+    assert (Fm : explicit sm = explicit t /\ x_impf (xopts sm) = x_impf (xopts t) /\ x_refi (xopts sm) = x_refi (xopts t));
+    [|destruct (do_compile sm) as [s2 ok]] end.
+  { match goal with |- context [mark_all ?d ?sp] => pose proof (same_but_fl _ _ _ (mark_all_same_but d sp)) as [A B] end.
+    rewrite A, B. cbn. auto. }
+  cbn [fst] in F2. destruct ok; [discriminate|]. intros _. cbn [fst]. destruct F2 as [A B]. destruct Fm as [M1 [M2 M3]].
+  split; cbn [with_flags explicit xopts].
+  - congruence.
+  - rewrite B, M2, M3. destruct (xopts t) as [a b c]. cbn in *. subst c. reflexivity.
+Qed.
+
+Lemma QI_healthy s D t : wf_state s -> QI s [] D t -> FE s t -> length (mods t) = length (mods s) -> healthy t.
+Proof.
+  intros W Q F Hlen.
+  assert (Holds : olds_of s t = mods t) by (unfold olds_of; rewrite <- Hlen; apply firstn_all).
+  pose proof (Forall2_with_In _ _ _ (Forall2_conj _ _ _ _ (qi_olds _ _ _ _ Q) F)) as FU. rewrite Holds in FU.
+  intros m'' Hin Htc. destruct (Forall2_In_r _ _ _ _ FU Hin) as [m0 [_ [H0 [Hr [_ Hf]]]]].
+  destruct Hr as [R1 R2 R3 R4 R5 R6 R7 R8 R9 R10 R11].
+  rewrite (compiles_ok_ext m0 m'' Hf R3). destruct (R7 (R9 Htc)) as [Hi|[]].
+  apply (wf_comp_impl _ _ (wfs_mods _ W m0 H0) Hi).
+Qed.
+
+Lemma same_but_len N t t' : same_but N t t' -> length (mods t') = length (mods t).
+Proof. intros S. pose proof (f_equal (@length _) (sb_mods _ _ _ S)) as E. rewrite !map_length in E. exact E. Qed.
+
+(* with nothing pending the recompilation of ly_ctx_set_options(LY_CTX_SET_PRIV_PARSED) cannot fail: everything that is
+   compiled compiles again *)
+Lemma set_options_quiescent_ok s fl : wf_state s -> evs s = [] -> snd (set_options s fl) = true.
+Proof.
+  intros W He. unfold set_options, set_options_gen. destruct (negb (x_priv (xopts s)) && of_priv fl); [|reflexivity].
+  assert (P0 : PI s s) by (apply PI_refl; [exact W|exact He]).
+  match goal with |- context [do_compile (mark_all ?d ?sp)] => set (sp0 := sp) end.
+  set (d0 := [map mkey (mods sp0)]).
+  assert (Q0 : QI s [] [] sp0) by (apply (QI_mods_eq s [] [] s sp0); [reflexivity|reflexivity|apply (PI_QI s s W P0)]).
+  assert (F0 : FE s sp0) by exact (PI_FE' s s P0).
+  pose proof (mark_all_QI s [] [] d0 sp0 Q0) as Q1.
+  pose proof (no_tc_weaken _ _ (mark_all_same_but d0 sp0)) as S1.
+  pose proof (FE_same_but s sp0 _ S1 F0) as F1.
+  set (sm := mark_all d0 sp0) in *.
+  unfold do_compile.
+  destruct (dep_sets_create_QI s [] [] sm None Q1) as [Q2 S2]. apply no_tc_weaken in S2.
+  pose proof (FE_same_but s sm _ S2 F1) as F2.
+  destruct (dep_sets_create sm None) as [s1 dss]. cbn [fst] in *.
+  assert (Q2' : QI s [] (concat dss) s1) by (apply (QI_mono_D s [] [] _ s1 Q2); intros x []).
+  assert (Hlen : length (mods s1) = length (mods s)).
+  { rewrite (same_but_len _ _ _ S2), (same_but_len _ _ _ S1). reflexivity. }
+  pose proof (QI_healthy s _ s1 W Q2' F2 Hlen) as H2.
+  assert (Hd : forall ds, In ds dss -> incl ds (concat dss)) by (intros ds Hin x Hx; apply in_concat; exists ds; tauto).
+  destruct (compile_all_ok s (concat dss) W dss s1 Q2' F2 H2 Hd) as [Ok _].
+  destruct (compile_all dss s1) as [s2 ok]. cbn [snd] in Ok. subst ok. cbv beta iota zeta. reflexivity.
+Qed.
+
 Lemma finish_err o mid dss r s' :
   finish o (mid, dss, r) = (s', RErr) -> r = RErr /\ s' = erase (revert mid dss).
 Proof.
@@ -3027,23 +3180,37 @@ Proof.
   intros Js Hq Hstep.
   assert (W : wf_state (core s)) by (apply quiescent_wf; exact Hq).
   assert (P0 : PI (core s) (core s)) by (apply PI_refl; [exact W|reflexivity]).
-  change (obs s) with (obs (core s)). apply obs_frel.
-  unfold step in Hstep. pose proof (attempt_LJ R (core s) o Js) as Jmid.
+  destruct (match o with OpSetOpt _ | OpUnsetOpt _ => true | _ => false end) eqn:Eo.
+  { (* the option calls cannot fail when nothing is pending *)
+    exfalso. destruct o as [d sel|name rev sel|name rev sel| |fl|fl]; try discriminate Eo; unfold step in Hstep.
+    - pose proof (set_options_quiescent_ok (core s) fl W eq_refl) as Ok. destruct (set_options (core s) fl) as [s2 ok].
+      cbn [snd] in Ok. subst ok. inversion Hstep as [[E1 E2]]. destruct (fuel_out s2); [discriminate|].
+      destruct (aborted s2); discriminate.
+    - inversion Hstep. }
+  assert (Hstep' : finish o (attempt R (core s) o) = (s', RErr)) by (destruct o; try discriminate Eo; exact Hstep).
+  clear Hstep. rename Hstep' into Hstep.
+  change (obs s) with (obs (core s)).
+  pose proof (attempt_LJ R (core s) o Js) as Jmid.
   destruct (attempt R (core s) o) as [[mid dss] r] eqn:Ea. cbn [fst] in Jmid.
   destruct (finish_err o mid dss r s' Hstep) as [-> ->].
+  cut (fl_eq (core s) mid /\ Forall2 frel (mods (core s)) (mods (erase (revert mid dss)))).
+  { intros [[A B] C]. destruct (revert_fl mid dss) as [A' B'].
+    apply obs_frel; [exact (eq_trans A' A)|exact (eq_trans B' B)|exact C]. }
   assert (Hfail : forall t1, PI (core s) t1 -> mid = t1 -> dss = [] ->
-            Forall2 frel (mods (core s)) (mods (erase (revert mid dss)))).
-  { intros t1 P1 -> ->.
+            fl_eq (core s) mid /\ Forall2 frel (mods (core s)) (mods (erase (revert mid dss)))).
+  { intros t1 P1 -> ->. split; [apply (PI_fl _ _ P1)|].
     destruct (PI_frame (core s) t1 t1 P1 (frame_eq_refl t1)) as [_ [_ Hcr]].
     apply (revert_restores (core s) [] [] t1 W (PI_QI _ _ W P1)); [|exact Js|exact Jmid|apply (pi_impl _ _ P1)|exact Hcr|reflexivity].
     rewrite (restore_features_nil t1 (pi_fsaved _ _ P1)). apply PI_FE'. exact P1. }
   assert (Hiac : forall t1 k sel, PI (core s) t1 ->
             (let '(s2, dss2, ok) := implement_and_compile t1 k sel in (s2, dss2, if ok then ROk else RErr)) = (mid, dss, RErr) ->
-            Forall2 frel (mods (core s)) (mods (erase (revert mid dss)))).
-  { intros t1 k sel P1 E. destruct (implement_and_compile t1 k sel) as [[s2 dss2] ok] eqn:Ei.
-    destruct ok; [discriminate E|]. inversion E; subst s2 dss2.
+            fl_eq (core s) mid /\ Forall2 frel (mods (core s)) (mods (erase (revert mid dss)))).
+  { intros t1 k sel P1 E. pose proof (iac_frame t1 k sel) as Fr.
+    destruct (implement_and_compile t1 k sel) as [[s2 dss2] ok] eqn:Ei.
+    destruct ok; [discriminate E|]. inversion E; subst s2 dss2. cbn [fst] in Fr.
+    split; [eapply fl_trans; [apply (PI_fl _ _ P1)|apply (frame_fl _ _ Fr)]|].
     apply (iac_restores (core s) t1 k sel mid dss W P1 Ei Js Jmid). }
-  destruct o as [d sel|name rev sel|name rev sel|]; cbn [attempt] in Ea.
+  destruct o as [d sel|name rev sel|name rev sel| |fl|fl]; try discriminate Eo; cbn [attempt] in Ea.
   - pose proof (parse_in_PI (core s) (pfuel R) R (core s) d None P0) as P1.
     destruct (parse_in (pfuel R) R (core s) d None) as [t1 pr]. cbn [fst] in P1.
     destruct pr as [k|k| |].
@@ -3062,6 +3229,26 @@ Proof.
     destruct (dep_sets_create (core s) None) as [s1 dss1]. cbn [fst] in N1.
     destruct (compile_all_none dss1 s1 N1) as [Ok _]. destruct (compile_all dss1 s1) as [s2 ok]. cbn [snd] in Ok.
     subst ok. inversion Ea.
+Qed.
+
+(* a failing ly_ctx_set_options() leaves ly_ctx_get_options() as it was, in every state *)
+Lemma set_options_step_failed R s fl s' :
+  step R s (OpSetOpt fl) = (s', RErr) -> explicit s' = explicit s /\ xopts s' = xopts s.
+Proof.
+  unfold step. pose proof (set_options_failed_keeps_flags (core s) fl) as K.
+  destruct (set_options (core s) fl) as [s2 ok]. cbn [fst snd] in K. intros H. inversion H as [[E1 E2]]. subst s2.
+  destruct (fuel_out s'); [discriminate|]. destruct (aborted s'); [discriminate|]. destruct ok; [discriminate|].
+  exact (K eq_refl).
+Qed.
+
+(* with nothing pending neither option call fails *)
+Lemma option_calls_quiescent_ok R s fl : quiescent s = true ->
+  snd (step R s (OpSetOpt fl)) <> RErr /\ snd (step R s (OpUnsetOpt fl)) = ROk.
+Proof.
+  intros Hq. assert (W : wf_state (core s)) by (apply quiescent_wf; exact Hq). split; [|reflexivity].
+  unfold step. pose proof (set_options_quiescent_ok (core s) fl W eq_refl) as Ok.
+  destruct (set_options (core s) fl) as [s2 ok]. cbn [snd] in *. subst ok.
+  destruct (fuel_out s2); [discriminate|]. destruct (aborted s2); discriminate.
 Qed.
 
 (* ------------------------------------------------------------------------------------------------ *)
@@ -3152,7 +3339,7 @@ Proof.
   assert (Hgoal : forall t1, PI (core s) t1 -> compiled_in (fst (finish o (t1, [], RErr))) = []).
   { intros t1 P1. unfold finish. cbn [fst]. unfold compiled_in. rewrite (revert_parse_evs (core s) t1 P1).
     pose proof (pi_evs _ _ P1) as He. induction He as [|e l -> He IH]; [reflexivity|exact IH]. }
-  unfold step. destruct o as [d sel|name rev sel|name rev sel|]; cbn [fails_in_parse attempt] in *; try discriminate.
+  destruct o as [d sel|name rev sel|name rev sel| |fl|fl]; cbn [fails_in_parse] in Hf; try discriminate Hf; unfold step; cbn [attempt].
   - pose proof (parse_in_PI (core s) (pfuel R) R (core s) d None P0) as P1.
     destruct (parse_in (pfuel R) R (core s) d None) as [t1 pr]. cbn [fst snd] in *.
     destruct pr; try discriminate; apply (Hgoal t1 P1).
@@ -3239,6 +3426,19 @@ Lemma w6_facts :
   In (0, 1) (compiled_in (fst (step w6_R w6_s w6_o))) /\
   option_map m_impl (find_mod (0, 1) (mods w6_s)) = Some true.
 Proof. vm_compute. repeat split; try discriminate. repeat (first [left; reflexivity|right]). Qed.
+
+(* 8. (regression of the seeded change C09-7) explicit compilation, b (leafref without target) parsed but not compiled yet;
+   ly_ctx_set_options(ENABLE_IMP_FEATURES | SET_PRIV_PARSED) fails in the recompilation. As coded the options are what they
+   were; the variant that ORs the new flags in before the recompilation leaves LY_CTX_ENABLE_IMP_FEATURES set *)
+Definition w8_b : mdesc := mkDesc 1 1 [] [] 4.
+Definition w8_R : repo := [w8_b].
+Definition w8_s : state := run w8_R (init true) [OpParse w8_b FNull].
+Definition w8_fl : oflags := mkOf false true false true.
+Lemma w8_facts :
+  snd (step w8_R w8_s (OpSetOpt w8_fl)) = RErr /\ xopts (fst (step w8_R w8_s (OpSetOpt w8_fl))) = xopts w8_s /\
+  snd (set_options_gen true (core w8_s) w8_fl) = false /\
+  x_impf (xopts w8_s) = false /\ x_impf (xopts (fst (set_options_gen true (core w8_s) w8_fl))) = true.
+Proof. vm_compute. repeat split. Qed.
 
 Lemma reachable_run R expl ops : reachable R (run R (init expl) ops).
 Proof. exists expl, ops. reflexivity. Qed.
@@ -3333,4 +3533,11 @@ Lemma data_trees_refuted :
 Proof.
   exists w6_R, w6_s, w6_o, (0, 1). split; [apply reachable_run|]. destruct w6_facts as [A [B [C [D E]]]].
   exact (conj A (conj B (conj C (conj E D)))).
+Qed.
+
+Lemma set_options_or_first_refuted :
+  ~ (forall s fl, snd (set_options_gen true s fl) = false -> xopts (fst (set_options_gen true s fl)) = xopts s).
+Proof.
+  intros H. destruct w8_facts as [_ [_ [A [B C]]]]. rewrite (H (core w8_s) w8_fl A) in C.
+  change (xopts (core w8_s)) with (xopts w8_s) in C. rewrite B in C. discriminate C.
 Qed.
